@@ -242,3 +242,19 @@ def r7(ctx):
     from rules import c03
     for fn in (c03.r2, c03.r3, c03.r5, c03.r7):
         fn(ctx)
+
+
+@rule('C02', 'R-C02-8', 'T3b LOOP-EXIT (decoding reads every id)',
+      'the de_tokenize loops of the BPE, byte and vocabulary tokenizers visit every token id: the loop over token_ids is left only at '
+      'the end of the slice or towards an error return. A `break` at some sentinel id (an "end of sequence" token that may also be a '
+      'prefix token) drops the rest of the text')
+def r8(ctx):
+    from rules.common import full_traversal, BYTE
+    n = 0
+    cands = [b for b in ctx.facts.bodies if b.path.endswith('::de_tokenize') and b.kind != 'Closure' and b.impl_trait and norm_path(b.impl_trait).endswith('Tokenize')
+             and b.file() == 'src/tokenization.rs' and 'Huggingface' not in str(b.impl_self) and 'Duration' not in str(b.impl_self)]
+    for b in cands:
+        ctx.stats['bodies_inspected'].add(b.path)
+        n += full_traversal(ctx, b, ('arg', 2, ANY), 'decode-all-ids', 'de_tokenize of %s' % (b.impl_self or '?')[:60])
+    if n < 2:
+        raise AnchorMissing('de_tokenize loops over token_ids (found %d)' % n)
